@@ -38,11 +38,22 @@ SPEC = {
         "caches, sandboxing, timeouts, stale outputs of EARLIER definitions left in plz-out (plz keeps them with their stamps; the "
         "generator never returns to an earlier output name)",
     ],
-    "assumptions": ["SHA-1 / CollapseHash modelled as injective on pre-images", "tests are deterministic functions of their runtime inputs",
+    "assumptions": ["SHA-1 / CollapseHash modelled as injective on pre-images",
+                    "nobody edits files under plz-out by hand other than through hard links of source files (filegroup outputs)", "tests are deterministic functions of their runtime inputs",
                     "scratch filesystem supports user xattrs (plz falls back to files otherwise)"],
     "harness_timeout": 9000,
 }
 MUTATIONS = """
+ROUND-2 SEED (src/fs/hash.go moveOrCopyHash: destination marked "never use xattrs" only when OUTSIDE plz-out/, i.e. never for
+filegroup outputs): a filegroup output is a hard link of its source; RuntimeHash then stores user.plz_hash on the shared inode and an
+IN-PLACE overwrite of the source is not seen: stale cached PASS.  Was missed (no filegroups, every edit replaced the file).  Now:
+generator has filegroups over source files as data / sources, edits in place (`filei`) or by rename (`file`), the working tree keeps
+its inodes between steps, often two runs before the first edit; corpus scenarios with the exact shape; model has the shared-inode
+stored hash (`Facts.linkXattr`, `TRepo.linkOf`, `TState.xh`), facts pinned from hash.go / filegroup.go (`linkedHashFromContent`),
+theorems use `facts_link`, witness `C11_witness_stale_hash_on_shared_inode`.
+VERIF_REPO=/tmp/confirm/C11 ./check C11 quick -> VIOLATION stale-result-despite-distinct-runtime-hash (+ stale-build-output-fed-to-test)
+with the concrete history (fg, run, run, filei, run: cached pass, fresh error), obligations 25/28; /repo green 28/28.
+
 FIX PHASE: /repo 168aeab (RuntimeHash also digests the NUL-terminated destination name of every runtime file) and
 /repo d11a3f4 (Test.NoOutput in the runtime rule hash).  Re-introducing either defect on a scratch copy:
 f) drop the two name writes again -> VIOLATION runtime-hash-omits-file-names + runtime-rule-hash-unframed (both classes are "fixed":
